@@ -133,7 +133,12 @@ def compare(variant: str, got: list, spec: list, unchanged_roles=()):
             if t == 'raise':
                 return t
             t = _expand_self(t, variant)
-            return _unchanged(t, val)
+            t = _unchanged(t, val)
+            # identity shortcut of a pending substitution: with nothing to instantiate, apply_subst(P, v, Q) on a
+            # well-formed head (MetaVar | ESubst | SSubst; C01 S2) wraps again, i.e. rebuilds this very constructor
+            if variant in ('ESubst', 'SSubst') and t == (variant.lower(), SS.F('P'), SS.F('v'), SS.F('Q')):
+                return ('C', variant, SS.F('P'), SS.F('v'), SS.F('Q'))
+            return t
 
         if nrm(g) != nrm(s):
             return f'at {_val(val)}: code yields {show(g)} but the textbook definition yields {show(s)}'
@@ -262,10 +267,6 @@ def inst_outcomes(r: Rust):
                 kids = SS.CHILDREN[v]
                 if all(k in unchanged for k in kids) and v in SS.FORM and kids:
                     t = ('C', v) + tuple(SS.INST(rl) if rl in kids else SS.F(rl) for rl in SS.FORM[v])
-                    if v in ('ESubst', 'SSubst'):
-                        # table 2.5: pattern.instantiate(d).apply_subst(var, plug.instantiate(d)); with a well-formed
-                        # head (MetaVar | ESubst | SSubst, C01 S2) apply_subst wraps, i.e. rebuilds this constructor
-                        t = (v.lower(), SS.INST('P'), SS.F('v'), SS.INST('Q'))
                 else:
                     t = SS.SELF
                 oc.append((conds, t))
